@@ -3,4 +3,4 @@ From OV Require Import Common.Base C17.Model.
 Extraction Language OCaml.
 Extraction "C17_model.ml" make_tuple_key shard_for new_registry reg_step reg_get
   component_claim component_release caller_claim_v caller_claim caller_release proto_ipoe proto_pppoe
-  world0 e2e_step e2e_snapshot e2e_restart e2e_restart_skipping.
+  world0 e2e_step e2e_snapshot e2e_restart e2e_restart_skipping aworld0 a_step.
